@@ -255,7 +255,7 @@ func c05EventsInOrder(c *Ctx, k *core) {
 			}
 			// or: a refresh of the slot with the current version - a non-blocking send of the config just loaded with
 			// ViewVersion in a function that only runs on the monitor goroutine, after taking the parked value out
-			if !okS && f.Parent() == nil && !isAPI(f) && !op.Blocking && k.vvCall(op.Val, 0) != nil {
+			if !okS && f.Parent() == nil && !isAPI(f) && !op.Blocking && k.vvCall(livePhiValue(op.Val, op.Instr.Block()), 0) != nil {
 				cg := w.callGraph()
 				roots, others := cg.goroutineRootsOf(f)
 				onlyMonitor := len(others) == 0 && len(roots) == 1
